@@ -20,6 +20,8 @@ NOTES = {  # seed -> (detected_by, note) overriding / complementing the logged r
  'C21-2': ('C21 (exit-number)', 'missed at first; caught after a helper that exits 0 while a child keeps its output pipes open for 3 s was added (demo confirmed by hand: fails with the change, passes without)'),
  'C17-1': ('C17 (slice:last-k-clipped)', 'missed at first ([-k..] with k>n was outside the asserted forms); caught after the model was extended to "the last k items of a shorter list are all of them"'),
  'C19-1': ('C19 (no-internal-panic)', 'missed at first; caught after a whitespace table with a short row and the column arguments c / *3 were added to the stdin and argument alphabets'),
+ 'C10-2': ('C10 (argv-round-trip)', 'missed at first; caught after U+00A0, U+3000, U+2028 and form feed were added to the argument alphabet'),
+ 'C35-2': ('C35 (inverse-gives-back-original)', 'missed at first; caught after inputs built from the encoders own escape tokens (&lt; &amp; %20 \\n ...) were added'),
  'C19-2': ('NOT DETECTED', 'needs a pipe constructor that fails while returning a typed-nil (pty without /dev/ptmx, or a no_pipe_net build): no such failure can be provoked from the command alphabet'),
 }
 ROOT = '/verif'
